@@ -48,3 +48,22 @@ func init() {
 		}
 	}
 }
+
+// DumpProps prints the per-property rule catalogue (markdown).
+func DumpProps() {
+	for _, id := range IDs() {
+		p := Get(id)
+		fmt.Printf("### %s\n\n", id)
+		fmt.Printf("*Decides / does not decide:* %s\n\n", p.Explain)
+		for _, r := range p.Rules {
+			fmt.Printf("* **%s** — %s\n", r.Name, r.Doc)
+		}
+		n := 0
+		for _, ct := range Controls {
+			if ct.Prop == id && ct.Rule != "" {
+				n++
+			}
+		}
+		fmt.Printf("\n*Control mutants (thorough tier):* %d. *Trusted:* %v\n\n", n, p.Trusted)
+	}
+}
